@@ -741,7 +741,7 @@ MUTANTS = [
     ("from_dataframe:rot-from-pos-cols", "checks.c12", "sec_single", {**_S3, "ops": [7]}, {_MC: [("            rot = Rotation.from_rotvec(rotvec.to_numpy())\n        return cls(pos.to_numpy(), rot, features=features)", "            rot = Rotation.from_rotvec(rotvec.to_numpy()[::-1])\n        return cls(pos.to_numpy(), rot, features=features)")]}),
     ("to_dataframe:yvec-xvec-swapped", "checks.c12", "sec_single", {**_S3, "ops": [10]}, {_MC: [('                "yvec": rotvec[:, 1],\n                "xvec": rotvec[:, 2],', '                "yvec": rotvec[:, 2],\n                "xvec": rotvec[:, 1],')]}),
     ("concat:order", "checks.c12", "sec_single", {**_S3, "ops": [20]}, {_MC: [("        all_quat = np.concatenate(quat, axis=0)\n", "        all_quat = np.concatenate(quat[::-1], axis=0)\n")]}),
-    ("concat_with:features-of-other-first", "checks.c12", "sec_single", {**_S3, "ops": [21]}, {_MC: [("            feat = pl.concat([self.features, other.features], how=how)\n        return self.__class__(pos, Rotation.from_quat(rot), features=feat)", "            feat = pl.concat([other.features, self.features], how=how)\n        return self.__class__(pos, Rotation.from_quat(rot), features=feat)")]}),
+    ("concat_with:features-of-other-first", "checks.c12", "sec_single", {**_S3, "ops": [21]}, {_MC: [("            feat = pl.concat([feat_self, feat_other], how=how)", "            feat = pl.concat([feat_other, feat_self], how=how)")]}),
     ("append:pos-not-extended", "checks.c12", "sec_single", {**_S3, "ops": [22]}, {_MC: [("        self._pos = pos\n        self._rotator = Rotation.from_quat(rot)\n        self._features = feat", "        self._rotator = Rotation.from_quat(rot)\n        self._features = feat")]}),
     ("with_features:drops-rotator-copy", "checks.c12", "sec_pairs", {"n": 3, "keys": (2, 0, 1), "first": [23]}, {_MC: [("            self.pos,\n            self.rotator,\n            features=self.features.with_columns(exprs, *more_exprs, **named_exprs),", "            self.pos[::-1],\n            self.rotator,\n            features=self.features.with_columns(exprs, *more_exprs, **named_exprs),")]}),
     ("group_by:not-maintain-order-drop", "checks.c12", "sec_groups", {}, {"acryo.molecules._group": [("            mole = Molecules.from_dataframe(df)\n", "            mole = Molecules.from_dataframe(df.head(1))\n")]}),
